@@ -239,6 +239,47 @@ def runDtcwt (op : String) (ps : List Int) (ts : List (Option (T α))) : Res α 
           DTCWTInverse s (boolOf sym) f sz6 sz5 (lch.map fun l => l.getD k [])
             (canon.map fun ob => ob.map fun b => (b.getD a []).getD k [])
       some [some (ofL4 y)]
+  | "FWD_J1_bwd", [o, ri, sym, _skip], [some h0, some h1, some dl, dh] => resOfOpt do
+      let bands ← (match dh with
+        | none => some none
+        | some t => do let c ← fromLayout o ri t; some (some (bandsOfT c)))
+      let rc ← (match dh with
+        | none => some (0, 0)
+        | some t => sizes5 o ri t)
+      let y ← (List.range dl.l4.length).mapM fun a =>
+        (List.range (dl.l4.getD a []).length).mapM fun k =>
+          FWD_J1_backward s (boolOf sym) h0.l1 h1.l1 rc ((dl.l4.getD a []).getD k [])
+            (bands.map fun b => (b.getD a []).getD k [])
+      some [some (ofL4 y)]
+  | "FWD_J2PLUS_bwd", [o, ri, _skip], [some h0a, some h0b, some h1a, some h1b, some dl, dh] => resOfOpt do
+      let bands ← (match dh with
+        | none => some none
+        | some t => do let c ← fromLayout o ri t; some (some (bandsOfT c)))
+      let y ← (List.range dl.l4.length).mapM fun a =>
+        (List.range (dl.l4.getD a []).length).mapM fun k =>
+          FWD_J2PLUS_backward s h0a.l1 h1a.l1 h0b.l1 h1b.l1 ((dl.l4.getD a []).getD k [])
+            (bands.map fun b => (b.getD a []).getD k [])
+      some [some (ofL4 y)]
+  | "INV_J1_bwd", [o, ri, sym, mask], [some g0, some g1, some dy] => resOfOpt do
+      let nl := mask % 2 = 1
+      let nh := mask / 2 = 1
+      let r := dy.l4.map fun item => item.map fun im => INV_J1_backward s (boolOf sym) g0.l1 g1.l1 nl nh im
+      let dl := if nl then some (ofL4 (r.map (·.map fun p => p.1.getD []))) else none
+      let dh ← (if nh then do
+          let t ← toLayout o ri (tOfBands (r.map (·.map fun p => p.2.getD [])))
+          some (some t)
+        else some none)
+      some [dl, dh]
+  | "INV_J2PLUS_bwd", [o, ri, mask], [some g0a, some g0b, some g1a, some g1b, some dy] => resOfOpt do
+      let nl := mask % 2 = 1
+      let nh := mask / 2 = 1
+      let r ← dy.l4.mapM fun item => item.mapM fun im => INV_J2PLUS_backward s g0a.l1 g1a.l1 g0b.l1 g1b.l1 nl nh im
+      let dl := if nl then some (ofL4 (r.map (·.map fun p => p.1.getD []))) else none
+      let dh ← (if nh then do
+          let t ← toLayout o ri (tOfBands (r.map (·.map fun p => p.2.getD [])))
+          some (some t)
+        else some none)
+      some [dl, dh]
   | _, _, _ => .bad
 
 end WV
